@@ -1,6 +1,7 @@
 package props
 
 import (
+	"runtime/debug"
 	"bytes"
 	"fmt"
 	"path"
@@ -28,6 +29,8 @@ type c05Case struct {
 	Class  string   `json:"class,omitempty"`
 	MayRefuse bool  `json:"may_refuse,omitempty"`
 	NoSSSE3 bool    `json:"nossse3,omitempty"` // Create with the SSSE3 dispatch flag forced off
+	Prior   int     `json:"prior,omitempty"` // history inside one process: before this Create, 1..4 = a Create that fails (empty input file, non-ASCII name, missing input, too many slices), 5 = a different successful Create, 6 = a failing one then a successful one
+	Enc     *encProtoCase `json:"enc,omitempty"` // operation sequences on one exported Encoder object (see encproto.go)
 	Unreadable int  `json:"unreadable,omitempty"` // 1-based index of an input that does not exist (0 = all inputs readable); -k: input k is a directory
 }
 
@@ -41,6 +44,12 @@ func c05Names(n, variant int) []string {
 }
 
 func c05Gen(g *core.Gen) {
+	// the staged exported API behind Create: every operation sequence on one Encoder object while the inputs change
+	depth := 7
+	if g.Thorough() {
+		depth = 8
+	}
+	encProtoGen(g, "p2", depth, func(e *encProtoCase) { g.Emit(&c05Case{Enc: e}) })
 	// core grid
 	for _, s := range []int{4, 8} {
 		for nf := 1; nf <= 3; nf++ {
@@ -128,6 +137,17 @@ func c05Gen(g *core.Gen) {
 			}
 		}
 	}
+	// histories within one process: an earlier Create (failing at different stages, or succeeding on other inputs) must
+	// leave nothing behind that reaches the files of this Create
+	for prior := 1; prior <= 6; prior++ {
+		for _, s := range []int{4, 64} {
+			for _, p := range []int{1, 3, 8} {
+				for _, gg := range []int{1, 3} {
+					g.Emit(&c05Case{Sizes: []int{2*s + 3, s, 5*s - 1}, Names: c05Names(3, p+prior), Slice: s, Blocks: p, G: gg, Prior: prior})
+				}
+			}
+		}
+	}
 	// many slices: 257, 300, 4097 (different constants), the 32768 limit, and beyond (may be refused)
 	big := []int{257, 300, 4097, 32767, 32768}
 	if g.Thorough() {
@@ -141,6 +161,10 @@ func c05Gen(g *core.Gen) {
 
 func c05Run(ci interface{}, r *core.Rec) {
 	c := ci.(*c05Case)
+	if c.Enc != nil {
+		encProtoRun(c.Enc, r, func(e *encProtoCase) interface{} { return &c05Case{Enc: e} })
+		return
+	}
 	if c.NoSSSE3 {
 		old := gf2p16.VerifSetUseSSSE3(false)
 		defer gf2p16.VerifSetUseSSSE3(old)
@@ -167,6 +191,49 @@ func c05Run(ci interface{}, r *core.Rec) {
 	in := append([]string{}, paths...)
 	for i, j := 0, len(in)-1; i < j; i, j = i+1, j-1 {
 		in[i], in[j] = in[j], in[i]
+	}
+	if c.Prior != 0 {
+		// no garbage collection between the earlier and this Create: anything parked in a pool or cache survives
+		oldGC := debug.SetGCPercent(-1)
+		defer debug.SetGCPercent(oldGC)
+		prior := func(kind int) {
+			pfs := envfs.New()
+			pfs.Put("/e/p0", scen.Content("uniq", r.Seed, 40, 3*c.Slice+1, c.Slice))
+			ins := []string{"/e/p0"}
+			blocks := 2
+			switch kind {
+			case 1:
+				pfs.Put("/e/empty", []byte{})
+				ins = append(ins, "/e/empty")
+			case 2:
+				pfs.Put("/e/n\u00e9", scen.Content("uniq", r.Seed, 41, 5, c.Slice))
+				ins = append(ins, "/e/n\u00e9")
+			case 3:
+				ins = append(ins, "/e/absent")
+			case 4:
+				blocks = 70000
+			case 5:
+				pfs.Put("/e/p1", scen.Content("uniq", r.Seed, 42, c.Slice, c.Slice))
+				ins = append(ins, "/e/p1")
+			}
+			var perr error
+			if ppi := core.Catch(func() {
+				perr = par2.VerifCreate(pfs, "/e/t.par2", ins, par2.CreateOptions{SliceByteCount: c.Slice, NumParityShards: blocks, NumGoroutines: c.G})
+			}); ppi != nil {
+				r.Violate("create-panic:"+ppi.Frame, ppi.Value+"\n"+ppi.Stack)
+			}
+			r.AddTransitions(1)
+			r.Outcome(fmt.Sprintf("prior %d %s", kind, errClass(perr)))
+			if kind != 5 && perr == nil {
+				r.Count("prior_create_unexpectedly_succeeded", 1)
+			}
+		}
+		if c.Prior == 6 {
+			prior(1)
+			prior(5)
+		} else {
+			prior(c.Prior)
+		}
 	}
 	var err error
 	pi := core.Catch(func() {
@@ -197,16 +264,31 @@ func c05Run(ci interface{}, r *core.Rec) {
 	}
 	ref := rpar2.NewSet(c.Slice, specs)
 	bad := func(sig, f string, a ...interface{}) { r.Violatef(sig, f, a...) }
+	files := map[string][]byte{}
+	for _, op := range fs.Writes() {
+		files[op.Path] = fs.Files[op.Path]
+	}
+	written := c05Validate(files, "/d/s", ref, c.Blocks, bad, r)
+	r.Outcome(fmt.Sprintf("files=%d slices=%d blocks=%d", len(written), ref.SliceCount(), c.Blocks))
+	if len(written) >= 2 {
+		r.NontrivialCase()
+	}
+}
+
+// c05Validate judges the files of one written PAR2 set (path -> bytes; base = index path without ".par2") against the
+// reference set: strict packet-stream reading, field-by-field comparison, every recovery block recomputed, blocks
+// 0..blocks-1 exactly once. It returns the sorted file names.
+func c05Validate(files map[string][]byte, base string, ref *rpar2.Set, blocks int, bad func(sig, f string, a ...interface{}), r *core.Rec) []string {
 	seenExp := map[uint32]int{}
 	var written []string
-	for _, op := range fs.Writes() {
-		written = append(written, op.Path)
+	for w := range files {
+		written = append(written, w)
 	}
 	sort.Strings(written)
 	hasIndex := false
 	for _, w := range written {
-		b := fs.Files[w]
-		if !strings.HasPrefix(w, "/d/s.") || !strings.HasSuffix(w, ".par2") {
+		b := files[w]
+		if !strings.HasPrefix(w, base+".") || !strings.HasSuffix(w, ".par2") {
 			bad("unexpected-output-name", "Create wrote %q", w)
 			continue
 		}
@@ -226,7 +308,7 @@ func c05Run(ci interface{}, r *core.Rec) {
 		if !pf.HasCreator {
 			bad("creator-missing", "%s has no creator packet", w)
 		}
-		if w == "/d/s.par2" {
+		if w == base+".par2" {
 			hasIndex = true
 			if len(pf.Recv) != 0 {
 				r.Count("index_contains_recovery_packets", 1) // not required by the statement; blocks are still counted exactly once overall
@@ -271,8 +353,8 @@ func c05Run(ci interface{}, r *core.Rec) {
 		}
 		for e, data := range pf.Recv {
 			seenExp[e] += pf.RecvCounts[e]
-			if int(e) >= c.Blocks {
-				bad("exponent-out-of-range", "%s: block %d with %d blocks requested", w, e, c.Blocks)
+			if int(e) >= blocks {
+				bad("exponent-out-of-range", "%s: block %d with %d blocks requested", w, e, blocks)
 				continue
 			}
 			want := ref.RecoveryBlock(int(e))
@@ -282,25 +364,22 @@ func c05Run(ci interface{}, r *core.Rec) {
 		}
 	}
 	if !hasIndex {
-		bad("index-missing", "no /d/s.par2 written (%v)", written)
+		bad("index-missing", "no %s.par2 written (%v)", base, written)
 	}
-	for e := 0; e < c.Blocks; e++ {
+	for e := 0; e < blocks; e++ {
 		if seenExp[uint32(e)] != 1 {
 			bad("blocks-not-exactly-once", "block %d appears %d times over %v", e, seenExp[uint32(e)], written)
 			break
 		}
 	}
-	r.Outcome(fmt.Sprintf("files=%d slices=%d blocks=%d", len(written), ref.SliceCount(), c.Blocks))
-	if len(written) >= 2 {
-		r.NontrivialCase()
-	}
+	return written
 }
 
 func init() {
 	core.Register(&core.Prop{
 		ID:    "C05",
 		Level: "model_checking",
-		Rule: "bounded-exhaustive configurations: full product 1-3 files x 6 sizes x slice{4,8} x blocks{1..9,17} with names in sub-directories; slice{4,8,12,64,2000} x blocks{1,2,3,7,8,15,16,17,100,101,127,128,300} x goroutines{1,2,3,5,16}; sizes around 16384; low-entropy classes; 257/300/4097/32768 slices; 32769 slices (refusal allowed). " +
+		Rule: "(plus the staged exported API behind Create: EVERY sequence of <=7 (thorough 8) operations from {LoadFileData, ComputeParityData, Write, replace input a by a shorter / longer / its original content, delete / restore input b} on ONE Encoder object on a real directory; a Write is judged iff the latest load attempt succeeded and a compute followed it - then it must succeed and the files must be a conformant set for the contents loaded last; LoadFileData must fail iff an input is missing; sequences are not merged by model state, since the point is state hidden in the object) (in addition, histories within one process: this Create preceded by a Create that fails at one of four stages - empty input, non-ASCII name, missing input, too many blocks - or by a successful Create of other inputs, or both, with garbage collection off in between so that pooled / cached state survives) bounded-exhaustive configurations: full product 1-3 files x 6 sizes x slice{4,8} x blocks{1..9,17} with names in sub-directories; slice{4,8,12,64,2000} x blocks{1,2,3,7,8,15,16,17,100,101,127,128,300} x goroutines{1,2,3,5,16}; sizes around 16384; low-entropy classes; 257/300/4097/32768 slices; 32769 slices (refusal allowed). " +
 			"Every file Create writes is parsed by the strict reference reader and compared field by field with the reference set; every recovery block is recomputed. non-trivial = >=1 recovery file written",
 		Assumptions: []string{"file id hashes the name without padding; CRC32 stored little-endian; ids ordered as little-endian 128-bit integers (as par2cmdline reads the spec)"},
 		NewCase:     func() interface{} { return &c05Case{} },
